@@ -4,6 +4,7 @@ import Driver.Item
 import Driver.RateLimiter
 import Driver.Stats
 import Driver.Pause
+import Driver.Url
 /-! zdriver: `zdriver <domain> [--base]` reads one JSON object per line, prints one result line each. -/
 open Lean
 
@@ -19,6 +20,7 @@ def stateless (f : Bool → Json → Except String String) : Domain :=
 def domains : List (String × Domain) := [
   ("disk", stateless Driver.Disk.step),
   ("pause", { σ := Zeno.Model.Pause.S, init := {}, step := Driver.Pause.step }),
+  ("url", stateless Driver.Url.step),
   ("stats", stateless Driver.Stats.step),
   ("diskwatch", stateless Driver.Disk.stepWatch),
   ("item", { σ := Zeno.Model.Item.Tree, init := Driver.Item.init, step := Driver.Item.step }),
